@@ -393,7 +393,11 @@ def tables(chk):
     bad = []
     wmap = {r[0]: r for r in w_rows[2:]}
     for r in w_rows[2:]:
-        a = atoms.Atom.for_isotope(r[0])
+        try:
+            a = atoms.Atom.for_isotope(r[0])
+        except Exception as e:  # noqa: BLE001
+            bad.append((r[0], f'a tabulated element is refused: {type(e).__name__}: {e}'[:120]))
+            continue
         okw = True
         if r[2] == '':
             try:
@@ -423,7 +427,11 @@ def tables(chk):
             except Exception:  # noqa: BLE001 -- any refusal counts
                 pass
             continue
-        a = atoms.Atom.for_isotope(r[0])
+        try:
+            a = atoms.Atom.for_isotope(r[0])
+        except Exception as e:  # noqa: BLE001
+            bad.append((r[0], f'a tabulated isotope is refused: {type(e).__name__}: {e}'[:120]))
+            continue
         n_checked += 1
         if not (same(a.atomic_mass, r[1], r[2], 'Da') and a.z == int(wmap[el][1])):
             bad.append((r[0], 'mass or Z'))
